@@ -22,6 +22,7 @@ func (d *Decoder) Start() {
 			decoded := protocol.NewPHYPayload(protocol.Proprietary)
 			if err := decoded.UnmarshalBinary(raw.RawMessage); err != nil {
 				lg.Info("Error unmarshalling payload: %v", err)
+				stage("decoder.reject", "")
 				return
 			}
 			context := server.FrameContext{
